@@ -434,12 +434,16 @@ func (c *RetryClient) Resubscribe(ctx context.Context) {
 	c.pushTask(ctx, func(ctx context.Context, cli *BaseClient) {
 		oldSubEstablished := append([]Subscription{}, c.subEstablished...)
 		c.subEstablished = nil
+		// Established subscriptions are older than the requests waiting in the retry queue.
+		pending := c.retryQueue
+		c.retryQueue = nil
 
 		if len(oldSubEstablished) > 0 {
 			for _, sub := range oldSubEstablished {
 				c.subscribe(ctx, true, cli, sub)
 			}
 		}
+		c.retryQueue = append(c.retryQueue, pending...)
 	})
 }
 
